@@ -107,12 +107,13 @@ pub fn run(args: &[String]) -> i32 {
         let want = c["accept"].as_bool().unwrap_or(false);
         let amount = spell(sp, n, fr);
         let (pre, suf) = template(tag);
-        let cur = currency_for(prec);
+        let code = c["code"].as_str().unwrap_or("");
+        let cur = if code.is_empty() { currency_for(prec) } else { code };
         let content = format!("{}{}{}", pre.replace("{C}", cur), amount, suf);
         evaluated += 1;
         let replay = json!({"kind": "amount", "case": c, "tag": tag, "content": content});
         let mut hit = |sig: String| { let e = violations.entry(sig).or_insert((0, replay.clone())); e.0 += 1; };
-        let digits_class = if n == 0 { "n=0".to_string() } else if n + 1 + fr > c["maxlen"].as_u64().unwrap_or(15) as usize { "too-long".into() } else if c["cur"].as_bool().unwrap_or(false) && fr as u64 > prec { format!("frac>{}", prec) } else { "fits".into() };
+        let digits_class = if !code.is_empty() { format!("currency={}", code) } else if n == 0 { "n=0".to_string() } else if n + 1 + fr > c["maxlen"].as_u64().unwrap_or(15) as usize { "too-long".into() } else if c["cur"].as_bool().unwrap_or(false) && fr as u64 > prec { format!("frac>{}", prec) } else { "fits".into() };
         match guarded(|| parse_by_tag(tag, &content)) {
             Err(p) => { *panics.entry(format!("C06|Field{}|panic|{}", tag, p.split(':').next().unwrap_or(""))).or_insert(0) += 1; }
             Ok(None) => {}
